@@ -140,7 +140,7 @@ fn k_update_headers_3lods() {
 //@unit props=C07 label=S tier=thorough fn=model::MDL::update_headers bound="2 LODs (2 meshes + 1 mesh), three streams of strides {12,8,4}; all counts symbolic (index counts < 2^24)"
 //@desc same contract on a second layout: three streams per mesh, two meshes in LOD 0 and one in LOD 1
 #[kani::proof]
-#[kani::unwind(6)]
+#[kani::unwind(14)]
 fn k_update_headers_2lods_3streams() {
     let meshes = vec![cmesh(0, [12, 8, 4], 3), cmesh(1, [12, 8, 4], 3), cmesh(2, [12, 8, 4], 3)];
     kani::assume(meshes[0].index_count < 0x0100_0000 && meshes[1].index_count < 0x0100_0000 && meshes[2].index_count < 0x0100_0000);
